@@ -102,7 +102,7 @@ func specPacked6Char(b []byte, k int) uint8 {
 //@ props C20 C05 C07
 //@ assigns nothing
 //@ requires [str.c] 0 <= c && c <= 31
-//@ invariant 0 [C20.bcdplus-inv] 0 <= i && i <= c && len(runes) == c && forall(qk, 0, i, runes[qk] == rune(specBCDPlusChar(b[qk/2], qk)))
+//@ invariant 0 [C20.bcdplus-inv] 0 <= iter && iter <= c && len(runes) == c && forall(qk, 0, iter, runes[qk] == rune(specBCDPlusChar(b[qk/2], qk)))
 //@ ensures [C20+C07.bcdplus-accept] (result2 == nil) == (len(b) >= (c+1)/2)
 //@ ensures [C20+C07.bcdplus-consumed] result2 == nil ==> result1 == (c+1)/2
 //@ ensures [C20+C07.bcdplus-chars] result2 == nil ==> len(result0) == c && forall(qk, 0, c, result0[qk] == specBCDPlusChar(b[qk/2], qk))
@@ -111,7 +111,7 @@ func specPacked6Char(b []byte, k int) uint8 {
 //@ props C20 C05 C07
 //@ assigns nothing
 //@ requires [str.c] 0 <= c && c <= 31
-//@ invariant 0 [C20.packed-inv] 0 <= i && i <= c && len(runes) == c && forall(qk, 0, i, runes[qk] == rune(specPacked6Char(b, qk)))
+//@ invariant 0 [C20.packed-inv] 0 <= iter && iter <= c && len(runes) == c && forall(qk, 0, iter, runes[qk] == rune(specPacked6Char(b, qk)))
 //@ ensures [C20+C07.packed-accept] (result2 == nil) == (len(b) >= (c*6+7)/8)
 //@ ensures [C20+C07.packed-consumed] result2 == nil ==> result1 == (c*6+7)/8
 //@ ensures [C20+C07.packed-chars] result2 == nil ==> len(result0) == c && forall(qk, 0, c, result0[qk] == specPacked6Char(b, qk))
